@@ -115,7 +115,7 @@ func C13(c *core.Ctx) {
 	}})
 	defer sched.Uninstall()
 	keeps := []int{1, 2, 3, 1 << 30}
-	n := c.Pick(24, 200)
+	n := c.Pick(36, 200)
 	for i := 0; i < n; i++ {
 		keep := keeps[i%4]
 		managed := i%3 == 1
